@@ -200,6 +200,12 @@ Formats:
 
 	for _, m := range ms.Modules {
 		if mods[m.Name] == nil {
+			// With several revisions of a module read in, print the
+			// one its name denotes (the latest), not the one the
+			// map iteration happens to meet first.
+			if latest := ms.Modules[m.Name]; latest != nil {
+				m = latest
+			}
 			mods[m.Name] = m
 			names = append(names, m.Name)
 		}
